@@ -110,6 +110,20 @@ func (w *TW) Handshake(chain [][]*x509.Certificate) (v Verdict) {
 			raw = append(raw, c.Raw)
 		}
 	}
+	return w.HandshakeRaw(raw, chain)
+}
+
+// HandshakeRaw: like Handshake with the certificates of the client's Certificate message given explicitly (a client
+// may send along certificates which are part of no verified chain).
+func (w *TW) HandshakeRaw(raw [][]byte, chain [][]*x509.Certificate) (v Verdict) {
+	defer func() {
+		if r := recover(); r != nil {
+			if fmt.Sprintf("%T", r) == "vsched.abortSentinel" {
+				panic(r)
+			}
+			v = Verdict{Panic: fmt.Sprint(r)}
+		}
+	}()
 	err := w.V.VerifyClientCertificate(raw, chain)
 	if err != nil {
 		if err.Error() == "client certificate was revoked" {
